@@ -66,7 +66,7 @@ use crate::{
     ingress,
     payload::{Payload, RouterId, Update},
     roto_runtime::types::{
-        explode_announcements, explode_withdrawals, FreshRouteContext,
+        explode_update, FreshRouteContext,
         PeerId, PeerRibType, Provenance,
     },
 };
@@ -840,8 +840,7 @@ where
         _trace_id: Option<u8>,
     ) -> Result<(SmallVec<[Payload; 8]>, UpdateReportMessage), session::Error>
     {
-        let rr_reach = explode_announcements(bgp_msg)?;
-        let rr_unreach = explode_withdrawals(bgp_msg)?;
+        let (rr_reach, rr_unreach) = explode_update(bgp_msg)?;
 
         let ingress_id = if let Some(ingress_id) =
             self.details.get_peer_ingress_id(&pph)
